@@ -48,7 +48,10 @@ def handle (cmd : String) (args : List String) : Option String :=
   | "c16.reg2bin", [b, e, ms, d] => do
     some (toString (reg2bin (← parseInt b) (← parseInt e) (← parseNat ms) (← parseNat d)))
   | "c16.reg2bins", [b, e, ms, d] => do
-    some (showList (reg2bins (← parseInt b) (← parseInt e) (← parseNat ms) (← parseNat d)))
+    -- Go's loop semantics: a `for i := b; i <= e; i++` with e = 2^32-1 never exits
+    match reg2binsGo (← parseInt b) (← parseInt e) (← parseNat ms) (← parseNat d) with
+    | some l => some (showList l)
+    | none => some "diverges"
   | "c16.csivalid", [i, ms, d] => do
     some (boolStr (csiValidIndexPos (← parseInt i) (← parseNat ms) (← parseNat d)))
   | _, _ => none
